@@ -6,6 +6,7 @@
 mod absx;
 mod agentsx;
 mod bookprops;
+mod bulk;
 mod c07;
 mod c09;
 mod c15;
